@@ -11,7 +11,7 @@ FAMS = {
     "C02": (["tolerance", "order"], ["tolerance", "order", "big"]),
     "C03": (["tolerance", "crashfn", "crashpost"], ["tolerance", "big", "cont", "crash", "crashfn", "crashpost", "crashchk"]),
     "C04": (["tolerance", "gates", "contq"], ["tolerance", "gates", "cont", "order", "big", "live"]),
-    "C05": (["retry", "retryov"], ["retry", "retrychk", "retryov", "retrychkov"]),
+    "C05": (["retry", "retryov", "crashretry"], ["retry", "retrychk", "retryov", "retrychkov", "crashretry"]),
     "C06": (["gates", "crashchkfn"], ["gates", "gates2", "crashchk", "crashchkfn"]),
     "C07": (["contq", "gates"], ["cont", "gates", "gates2", "live"]),
     "C08": (["order", "retry", "poll"], ["order", "retry", "poll", "tolerance", "gates"]),
